@@ -2134,7 +2134,13 @@ func (t *FnTrans) typeAssert(x *ssa.TypeAssert) {
 	okc = and(not(eq(v, "0")), eq(app("dyn.type", v), t.typeID(AT)))
 	val := t.unbox(v, AT)
 	if !x.CommaOk {
-		t.oblige("assert", okc, "type assertion may panic")
+		if t.ct != nil && t.ct.Opts["assume-type-asserts"] != "" {
+			// the dynamic types of values coming out of untyped containers (container/heap) are assumed, not proved
+			t.assume(okc)
+			t.abstr["assumed (unchecked): type assertion to "+AT.String()+" succeeds"] = true
+		} else {
+			t.oblige("assert", okc, "type assertion may panic")
+		}
 		t.bind(x, val)
 		t.assume(t.rangeFact(t.vals[x].S, AT))
 		return
